@@ -136,14 +136,14 @@ def check_trio_directions(ctx, model, rule="C14-S3"):
         ctx.ob(rule, "stableswap_3pool|direction-tables-agree", vals[0] == vals[1] == vals[2], "swap / simulation / reverse simulation tables identical: %s" % (vals[0] == vals[1] == vals[2]))
 
 
-def check_pair_directions(ctx, model):
+def check_pair_directions(ctx, model, rule="C14-S3"):
     fns = [("terraswap_pair::commands::swap", r"^terraswap_pair::helpers::compute_swap$", {"offer": 0, "ask": 1}),
            ("terraswap_pair::queries::query_simulation", r"^terraswap_pair::helpers::compute_swap$", {"offer": 0, "ask": 1})]
     for p, rx, roles in fns:
-        v = ctx.view(p, "C14-S3")
+        v = ctx.view(p, rule)
         if v is None:
             continue
-        t = direction_table(ctx, v, rx, roles, "C14-S3")
+        t = direction_table(ctx, v, rx, roles, rule)
         if t is None:
             continue
         bad = []
@@ -157,7 +157,7 @@ def check_pair_directions(ctx, model):
             seen.add(int(j))
             if not (asg.get("offer") == j and asg.get("ask") is not None and {asg.get("offer"), asg.get("ask")} == {0, 1}):
                 bad.append("offer==pools[%s] assigns offer=pools[%s], ask=pools[%s]" % (j, asg.get("offer"), asg.get("ask")))
-        ctx.ob("C14-S3", "%s|direction-table" % p, not bad and seen == {0, 1}, ("MISMATCH %s | " % bad if bad else "") + "branches %s" % {str(k): a for k, a in t.items()}, v.where())
+        ctx.ob(rule, "%s|direction-table" % p, not bad and seen == {0, 1}, ("MISMATCH %s | " % bad if bad else "") + "branches %s" % {str(k): a for k, a in t.items()}, v.where())
         # decimals: offer_decimal = asset_decimals[j], ask_decimal = asset_decimals[1-j], assigned in the same branches
         cs = v.calls_to(rx)
         if cs and len(cs[0][1]["args"]) >= 7:
@@ -220,7 +220,7 @@ def check_pair_directions(ctx, model):
                                     bad.append("offer==pools[%s]: %s_decimal = asset_decimals[%s]" % (jdx, role, k))
                             else:
                                 work.append(src["l"])
-            ctx.ob("C14-S3", "%s|decimals-table" % p, not bad and n == 4, ("MISMATCH %s | " % bad if bad else "") + "%d decimal assignments follow the direction table" % n, v.where())
+            ctx.ob(rule, "%s|decimals-table" % p, not bad and n == 4, ("MISMATCH %s | " % bad if bad else "") + "%d decimal assignments follow the direction table" % n, v.where())
 
 
 def arg_classes(v, b, t, i):
